@@ -543,3 +543,94 @@ def shrink_case(case):
                 else:
                     del hh["m"][ki]
                 yield d
+
+
+# ---------------------------------------------------------------- compiled programs (e2e)
+
+E2E_ENV_TOOLCHAIN = "1.96.0-x86_64-unknown-linux-gnu"
+
+
+def e2e_env():
+    """environment of the e2e harness: the simulator shells out to cargo for the generated
+    crate, which must use the toolchain and target dir the harness itself was built with"""
+    import os
+    from tools import vlib
+    tc = E2E_ENV_TOOLCHAIN
+    home = os.path.expanduser("~/.rustup/toolchains/" + tc)
+    env = dict(vlib.cargo_env("hydro-e2e"))
+    env.update({
+        "RUSTUP_TOOLCHAIN": tc,
+        "LD_LIBRARY_PATH": "%s/lib/rustlib/x86_64-unknown-linux-gnu/lib:%s/lib" % (home, home),
+        "CARGO_MANIFEST_DIR": os.path.join(vlib.ROOT, "harness", "h_sim", "e2e"),
+        "HV_CASE_TIMEOUT_MS": "3000000",
+    })
+    return env
+
+
+def e2e_ticks(case):
+    p, a, b = case["prog"], case["a"], case.get("b", [])
+    if p == "batch_total":
+        return [[{"kind": "stream_t", "q": a, "tr": None}]], False
+    if p == "batch_noorder":
+        return [[{"kind": "stream_n", "q": a, "tr": None}]], True
+    if p == "two_ticks":
+        return [[{"kind": "stream_t", "q": a, "tr": None}], [{"kind": "stream_t", "q": b, "tr": None}]], False
+    if p == "two_hooks":
+        return [[{"kind": "stream_t", "q": a, "tr": None}, {"kind": "stream_t", "q": b, "tr": None}]], False
+    raise ValueError(p)
+
+
+def p_sim_run(ticks, sh, ask):
+    ticks = copy.deepcopy(ticks)
+    while True:
+        rd = [i for i, t in enumerate(ticks) if any(can_nt(h) for h in t)]
+        if not rd:
+            return
+        t = ticks[rd[ask(0, len(rd) - 1)]]
+        before = [len(h["q"]) for h in t]
+        p_run_hooks(t, ask)
+        if sh:
+            for h, n0 in zip(t, before):
+                n = n0 - len(h["q"])
+                for src in range(0, n - 1):
+                    ask(src, n - 1)
+
+
+def e2e_scripts(case, limit=20000):
+    ticks, sh = e2e_ticks(case)
+    return enum_scripts(lambda ask: p_sim_run(ticks, sh, ask), limit)
+
+
+def g_lln(x):
+    return g_list([g_ln(b) for b in x])
+
+
+def g_o2(o):
+    return g_list([g_list([g_lln(run) for run in tick]) for tick in o])
+
+
+def e2e_outcome(case, o):
+    """harness outcome JSON -> per tick, per run, per hook value lists"""
+    p = case["prog"]
+    if p in ("batch_total", "batch_noorder"):
+        return [[[b] for b in o[0]]]
+    if p == "two_ticks":
+        return [[[b] for b in o[0]], [[b] for b in o[1]]]
+    if p == "two_hooks":
+        return [[[x, y] for x, y in o[0]]]
+    raise ValueError(p)
+
+
+def e2e_term(case, res):
+    if "outcomes" not in res:
+        return 3
+    ticks, sh = e2e_ticks(case)
+    a, b = case["a"], case.get("b", [])
+    spec = {"batch_total": "(spec_total %s)" % g_ln(a), "batch_noorder": "(spec_noorder %s)" % g_ln(a),
+            "two_ticks": "(spec_two_ticks %s %s)" % (g_ln(a), g_ln(b)), "two_hooks": "[]"}[case["prog"]]
+    scripts = e2e_scripts(case)
+    fuel = len(a) + len(b) + 1
+    return "(e2e_verdict %s %s %s %s %s %s %s)" % (
+        g_nat(fuel), g_bool(sh), g_list([g_list([g_hook(h) for h in t]) for t in ticks]),
+        g_list([g_script(s) for s in scripts]),
+        g_list([g_o2(e2e_outcome(case, o)) for o in res["outcomes"]]), g_nat(res["executions"]), spec)
